@@ -73,6 +73,8 @@ WHITESPACE_STYLES = {"tab": "\t", "newline": "\n", "crlf": "\r\n", "nl_indent": 
 
 def vb_text(vbox, style):
     toks = [repr(v) if isinstance(v, float) else str(v) for v in vbox]
+    if style == "g":                            # as written by a "%g"-style exporter
+        return " ".join("%g" % v for v in vbox)
     if style == "comma":
         return ",".join(toks)
     if style == "mixed":
@@ -278,6 +280,39 @@ def _separator_chunk(cases):
     return part
 
 
+def rounded_page_cases():
+    """The viewBox restates the page size *rounded* the way an exporter writes numbers (six
+    significant digits, three decimals, one decimal): nearly the identity, not quite - a page of
+    210 x 297 mm at 96 px per inch is 793.7007874015749 x 1122.5196850393702."""
+    pages = [(793.7007874015749, 1122.5196850393702), (1234567, 2000), (816.0000001, 1056.25),
+             (0.30000000000000004, 0.1), (1e-7 + 1e-15, 2e-7), (595.2755905511812, 841.8897637795276)]
+    out = []
+    for page in pages:
+        for fmt in ("%g", "%.3f", "%.1f", "%.8g", "%.2e"):
+            vbox = (0, 0, float(fmt % page[0]), float(fmt % page[1]))
+            if vbox[2] > 0 and vbox[3] > 0:
+                out.append((vbox, page))
+    return out
+
+
+def _rounded_chunk(cases):
+    part = core.Part()
+    for vbox, doc in cases:
+        for align, mos in itertools.product(ALIGNS, ("meet", "slice", None)):
+            for vb_style in ("space", "g", "comma"):
+                if vb_style == "g" and any(float("%g" % v) != v for v in vbox):
+                    continue                # "%g" would not spell this number, but another one
+                bad = check_valid(vbox, doc, align, mos, False, "canon", vb_style)
+                part.count("valid_cases")
+                part.count("rounded_page_cases")
+                for clause, msg in bad:
+                    part.violation(f"{clause}:rounded:{align}:{mos}:{vb_style}:{vbox}:{doc}", msg,
+                                   {"kind": "valid", "vbox": list(vbox), "doc": list(doc),
+                                    "align": align, "mos": mos, "defer": False,
+                                    "style": "canon", "vb_style": vb_style})
+    return part
+
+
 def _chunk(args):
     vboxes, docs = args
     part = core.Part()
@@ -335,6 +370,7 @@ def run(ctx):
     part = core.fan_out(ctx, _chunk, jobs)
     part.merge(core.fan_out(ctx, _spelled_chunk, [[sp] for sp in SPELLED]))
     part.merge(core.fan_out(ctx, _separator_chunk, [[case] for case in SEPARATOR_CASES]))
+    part.merge(core.fan_out(ctx, _rounded_chunk, core.split(rounded_page_cases(), 8)))
     for case in INVALID:
         for clause, msg in check_invalid(case):
             part.violation(f"{clause}:{case!r}", msg, {"kind": "invalid", "case": list(case)})
